@@ -1,15 +1,47 @@
 import Flatland.Run.FlatCommon
+import Flatland.TreeJson
+import Flatland.C07Tree
 open Lean
 open Flatland.J hiding Str
 namespace Flatland.Run.C07
 open Flatland.Flat Flatland.Run.FlatCommon
 
-/-- case: schema, sep, elem (state extracted from the real element), env -/
+/-- after the construction and after every call of a history (tree model, `TreeJson` executor):
+    `flatten(sep)` of the root as the shape walk computes it from the STORED slot names
+    (`flattenTree`), as the literal rendering computes it (identities + stored parent pointers,
+    `flattenCode`), whether every List names its slots by position (`dp`), and — flagged through
+    `spec_agrees` — whether `flattenTree` is the positional specification -/
+def treeView (sep : Str) (s : Flatland.TreeJson.St) (_r : Option Flatland.TreeJson.StepObs) : Json :=
+  let got := Flatland.C07Tree.flattenTree sep s.root
+  let code := Flatland.C07Tree.flattenCode s.univ (Flatland.TreeJson.fuelOf s) sep s.root
+  let spec := Flatland.C07Tree.specFlatten sep s.root
+  let positional := Flatland.C07Tree.dp s.root
+  obj [("flatten", pairsJson got), ("flatten_code", pairsJson code),
+       ("positional", Json.bool positional),
+       ("spec_agrees", Json.bool (got == spec || !positional))]
+
+/-- flat family — case: schema, sep, elem (state extracted from the real element), env;
+    tree-history family — case: schema, init, ops (as C08/C09), sep -/
 def run (j : Json) : Except String Json := do
-  let s ← parseSchema (← fld j "schema")
-  let sep ← cfld j "sep"
-  let env ← parseEnv (← fld j "env")
-  let e ← parseElem (← fld j "elem")
-  return obj [("flatten", pairsJson (flatten env sep s e))]
+  match (fld j "family") with
+  | .ok (Json.str "tree-history") =>
+    let sep ← cfld j "sep"
+    let c ← Flatland.TreeJson.parseCase j
+    let r ← Flatland.TreeJson.runCase c (treeView sep)
+    -- `spec_agrees` is a per-step flag: lift a `false` to the top level, where core looks for it
+    let bad := match r.getObjVal? "steps" with
+      | .ok (Json.arr steps) =>
+        steps.any (fun st =>
+          match (st.getObjVal? "view").bind (·.getObjVal? "spec_agrees") with
+          | .ok (Json.bool false) => true
+          | _ => false)
+      | _ => false
+    return if bad then r.setObjVal! "spec_agrees" (Json.bool false) else r
+  | _ =>
+    let s ← parseSchema (← fld j "schema")
+    let sep ← cfld j "sep"
+    let env ← parseEnv (← fld j "env")
+    let e ← parseElem (← fld j "elem")
+    return obj [("flatten", pairsJson (flatten env sep s e))]
 
 end Flatland.Run.C07
